@@ -6,6 +6,15 @@ DRIVER = "go.mongodb.org/mongo-driver BSON codec and Extended JSON (case seriali
 RAPID = "pgregory.net/rapid v1.3.0 generation and shrinking"
 
 CHECKS = {
+    "C14": {
+        "level": "exploration",
+        "rule": "Two generated sub-checks. project: (document with scalar / ObjectID / document-valued _id, nested documents and arrays; projection of 1-4 entries over dotted paths: inclusion/exclusion flags of all numeric and boolean types, _id handling, $slice n and [skip,limit] incl. negatives and out-of-range, $elemMatch in operator and field form, 20% mixed and deliberately overlapping, paths biased to the document) through mongokit.Project. Oracle: the stored document is byte-identical after projecting (always, also for overlapping paths and errors); projecting twice gives the same result up to field order; inside the domain of DESIGN.md 8.3 (paths descend embedded documents, no path collisions) the result equals the independent reference ref.Project up to field order, mixing inclusion and exclusion is rejected. driver: through Find / FindOne / FindOneAndUpdate on a fresh in-memory engine: stored documents byte-identical after projected reads and after scribbling over every decoded result, the three calls project identically, plain projections return only values stored at the same path. Non-trivial: project = at least 2 entries, one nested, one existing in the document, or a required rejection; driver = accepted projection with at least 2 entries. distinct = FNV-64 of the canonical case per sub-check.",
+        "assumptions": [REF + " (ref.Project, ref.Match)", DRIVER, RAPID, "result field order is not compared; fan-out of projection paths over arrays and overlapping paths are outside the agreement domain (non-mutation is still required there)"],
+        "subs": [
+            {"test": "TestProp_C14_project", "quick": 150000, "thorough": 14000000, "shards_q": 1, "shards_t": 14, "budget_q": 300, "budget_t": 1500},
+            {"test": "TestProp_C14_driver", "quick": 12000, "thorough": 1400000, "shards_q": 1, "shards_t": 14, "budget_q": 300, "budget_t": 1500},
+        ],
+    },
     "C13": {
         "level": "exploration",
         "rule": "rapid draws a collection of 0-12 (15%: 13-40) documents whose fields a,b,c come from a per-case palette of 2-5 values (numbers of several types, strings, null, arrays of scalars, empty array, sub-documents, arrays of sub-documents) so ties are frequent, a filter ({} in 50%, else from the C10 grammar biased to the documents), a sort of 1-3 keys over {a,b,c,a.b,a.c,_id} with directions, skip and limit in 0..6 and a distinct path; everything is executed through the driver API on a fresh in-memory engine. Oracle: unsorted Find = the documents the reference matcher selects, in insertion order; the full sorted result is a permutation of them, non-decreasing under the reference key order (ref.Cmp on min element ascending / max element descending, missing as null, reversed for -1) and stable; Find/FindOne/CountDocuments with skip/limit return exactly the window of the full ordering; sorted FindOneAndUpdate / FindOneAndDelete act on its first element; Distinct is strictly ascending and equals, as a set under BSON equality, the values at the path (array elements individually). Sort keys that are empty arrays or reached through an array are outside the order check (window checks still apply). Non-trivial = at least 4 matching documents, at least one tie under the sort, and 0 < skip < number of matches. distinct = FNV-64 of the canonical case.",
